@@ -5,8 +5,17 @@
   these theorems say what `evict` accepts, for EVERY state, configuration and event: Overflow only
   when the total weight exceeds the maximum at that moment (or the entry alone does) and never
   for zero-weight entries or unbounded caches; Expiration only when the deadline has passed.
+
+  The second half is about the transcription of policy.go itself (Impl.Policy, tied by UNIT-policy): the converse of the
+  bound.  Every node `evictFromMain` hands to the eviction callback is removed in an iteration whose guard
+  `weightedSize > maximum` held in the very state it is removed from (`Just`); hence a policy within its maximum — the
+  running total being the sum of the tracked weights in every reachable state — evicts nothing, and `add` evicts the new
+  arrival on the spot only if it alone exceeds the maximum.
 -/
 import OtterVerif.Proofs.MapLemmas
+import OtterVerif.Proofs.PolicyJust
+import OtterVerif.Conc.PolicySkeleton
+import OtterVerif.Gen.Skeleton
 
 namespace OtterVerif.Props.C07
 open OtterVerif OtterVerif.Spec
@@ -81,6 +90,48 @@ theorem c07_removes_only_reported (c : Cfg) (s s' : State) (ev : Event) (k' : Na
     (h : evict c s ev = some s') (hk : k' ≠ ev.key) : s'.phys k' = s.phys k' := by
   obtain ⟨e, _, _, _, rfl⟩ := evict_some c s s' ev h
   exact find_erase_other _ _ _ hk
+
+/-! ### the transcription of policy.go: nothing is evicted that need not be -/
+
+section policy
+open OtterVerif.Impl OtterVerif.Impl.Policy
+
+/-- every size eviction of `evictNodes` happens in a state whose running total exceeds the maximum: the result is reached
+    from the state the window pass left by a chain of evictions each guarded by `maximum < weightedSize` -/
+theorem c07_every_eviction_guarded (p : Policy) : Just (evictFromWindow p).1 (evictNodes p) := just_evictNodes p
+
+/-- **a cache within its maximum loses nothing to size eviction** -/
+theorem c07_within_maximum_nothing_evicted (p : Policy) (hb : p.weightedSize.toNat ≤ p.maximum.toNat) :
+    (evictNodes p).evicted = p.evicted :=
+  evictNodes_within_bound p (by simp [BitVec.ult]; exact hb)
+
+/-- the same in terms of the entries: in every state reachable by any order of events, if the sum of the weights of the
+    tracked entries (in the policy's own uint64 arithmetic) does not exceed the maximum, evictNodes removes nothing -/
+theorem c07_sum_within_maximum_nothing_evicted {S : List Nat} {p : Policy} (h : Reach S p)
+    (hb : (wsum p (all p)).toNat ≤ p.maximum.toNat) : (evictNodes p).evicted = p.evicted := by
+  have hw : p.weightedSize = wsum p (all p) := reach_winv h
+  exact c07_within_maximum_nothing_evicted p (by rw [hw]; exact hb)
+
+/-- if evictNodes removed anything, the running total exceeded the maximum -/
+theorem c07_eviction_implies_overflow (p : Policy) (hne : (evictNodes p).evicted ≠ p.evicted) :
+    p.maximum.toNat < p.weightedSize.toNat := by
+  have := evictNodes_evicts_only_above p hne
+  simpa [BitVec.ult] using this
+
+/-- a new arrival is handed to the eviction callback by `add` only if its weight alone exceeds the maximum -/
+theorem c07_add_evicts_only_oversized (p : Policy) (id : Nat) (hw : (w64 (p.node id).weight).toNat ≤ p.maximum.toNat) :
+    (add p id).evicted = p.evicted :=
+  add_evicts_only_oversized p id (by simp [BitVec.ult]; exact hw)
+
+/-- non-vacuity: a reachable policy holding weight 5 of 10, on which evictNodes is the identity on the evicted list -/
+example : (evictNodes (add (mkNode ({ maximum := 10, windowMaximum := 1 } : Policy) 1 5 2 .alive) 1)).evicted = [] := by decide
+
+/-! the eviction loops have the shape the transcription follows (skeletons regenerated from policy.go on every run) -/
+theorem skeleton_policy_evictFromMain : Gen.Skeleton.policy_evictFromMain = Conc.PolicySkeleton.policy_evictFromMain := by decide
+theorem skeleton_policy_evictFromWindow : Gen.Skeleton.policy_evictFromWindow = Conc.PolicySkeleton.policy_evictFromWindow := by decide
+theorem skeleton_policy_evictNodes : Gen.Skeleton.policy_evictNodes = Conc.PolicySkeleton.policy_evictNodes := by decide
+
+end policy
 
 /-! ### Non-vacuity -/
 def eA : Entry := { val := 7, weight := 1, exp := maxI64, ref := maxI64 }
